@@ -11,7 +11,8 @@ Open Scope Z_scope.
 
 (* ======================================================================================================
    WHOLE FILES.  Domains are the boolean predicates the correspondence runner evaluates as wf:
-   read_domain text = wf_read_text text && strict_read_text text;  write_domain chart ut ua.
+   read_domain text = wf_read_text text && strict_read_text text;  write_domain chart ut ua (nothing is demanded of the
+   transliterations ut / ua: the writer replaces their line feeds by blanks, [one_line]).
    The float printers (repr, ':g', str) are oracles: universally quantified functions with their assumed
    behaviour as explicit hypotheses (what they print reads back as the value printed, on the numbers
    declared printable); the *_dec6 theorems are the instance "fixed point with 6 decimals", no hypothesis left.
@@ -89,9 +90,9 @@ Theorem C01_osu_read_after_write : forall (show_num show_inum : Q -> text) (prin
   (forall q, iprintable q = true -> parse_int (show_inum q) = Some (Qfloor q)) ->
   forall c ut ua, wdom printable iprintable c ut ua = true ->
   exists text, written show_num show_inum c ut ua = Some text /\ read_domain text = true /\
-               osu_read text = Some (canon c ut ua) /\
-               denotes 0 (den_of c ut ua) (written_chart c ut ua) = true /\
-               realize (den_of c ut ua) = canon c ut ua.
+               osu_read text = Some (canon c (one_line ut) (one_line ua)) /\
+               denotes 0 (den_of c (one_line ut) (one_line ua)) (written_chart c ut ua) = true /\
+               realize (den_of c (one_line ut) (one_line ua)) = canon c (one_line ut) (one_line ua).
 Proof. exact osu_read_after_write. Qed.
 (* no drift: generation 2 denotes the chart generation 1 denotes (rows whose times became equal by truncation
    may be reordered once: holds before hits) and generation 3 IS generation 2, character for character *)
@@ -114,22 +115,36 @@ Theorem C01_osu_write_denotes_dec6 : forall c ut ua, wdom6 c ut ua = true ->
                  all_present d = true /\ denotes 0 d (written_chart c ut ua) = true /\ write_specb 0 c ut ua text = true.
 Proof. exact osu_write_denotes_dec6. Qed.
 Theorem C01_osu_read_after_write_dec6 : forall c ut ua, wdom6 c ut ua = true ->
-  exists text, written6 c ut ua = Some text /\ read_domain text = true /\ osu_read text = Some (canon c ut ua) /\
-               denotes 0 (den_of c ut ua) (written_chart c ut ua) = true /\ realize (den_of c ut ua) = canon c ut ua.
+  exists text, written6 c ut ua = Some text /\ read_domain text = true /\ osu_read text = Some (canon c (one_line ut) (one_line ua)) /\
+               denotes 0 (den_of c (one_line ut) (one_line ua)) (written_chart c ut ua) = true /\
+               realize (den_of c (one_line ut) (one_line ua)) = canon c (one_line ut) (one_line ua).
 Proof. exact osu_read_after_write_dec6. Qed.
 Theorem C01_generation_stable_dec6 : forall c ut ua, wdom6 c ut ua = true ->
   exists g1 g2, written6 c ut ua = Some g1 /\ regen6 g1 = Some g2 /\ wf_osu_text g2 = true /\
                 same_denotation 0 g1 g2 = true /\ regen6 g2 = Some g2.
 Proof. exact osu_generation_stable_dec6. Qed.
-(* the refuted corner of the write direction: a transliterated Title with a line feed (unidecode of U+2028) *)
-Theorem C01_write_title_linefeed_refuted :
+(* HISTORICAL, about the OLD writer only (before repo commit fde22cd): unidecode maps U+2028 / U+2029 to line feeds and the
+   old writer wrote such a Title on two lines: the text did not denote the chart, the title came back as "x" and
+   everything after it was lost *)
+Theorem C01_write_title_linefeed_OLD_refuted :
   wf_chart linefeed_chart = true /\ kinds_ok key_table (c_meta linefeed_chart) = true /\
-  match written6 linefeed_chart [97; 10; 98] [] with
-  | Some text => write_specb 0 linefeed_chart [97; 10; 98] [] text = false /\
-                 option_map (fun c => meta_str (c_meta c) IX_TITLE) (osu_read text) = Some [97]
+  match written6_OLD linefeed_chart linefeed_ut [] with
+  | Some text => (wf_osu_text text && match osu_denote text with
+                                      | Some d => denotes 0 d (written_chart_raw linefeed_chart linefeed_ut []) | None => false end) = false /\
+                 option_map (fun c => (meta_str (c_meta c) IX_TITLE, meta_str (c_meta c) 15)) (osu_read text) = Some ([120], [])
   | None => False
   end.
-Proof. exact write_title_linefeed_refuted. Qed.
+Proof. exact write_title_linefeed_OLD_refuted. Qed.
+(* the current writer: the former failing input is inside the domain, written on one line and read back whole *)
+Theorem C01_write_title_linefeed_current :
+  wdom6 linefeed_chart linefeed_ut [] = true /\
+  match written6 linefeed_chart linefeed_ut [] with
+  | Some text => write_specb 0 linefeed_chart linefeed_ut [] text = true /\
+                 option_map (fun c => (meta_str (c_meta c) IX_TITLE, meta_str (c_meta c) 15)) (osu_read text)
+                 = Some (t "x [TimingPoints]", t "u")
+  | None => False
+  end.
+Proof. exact write_title_linefeed_current. Qed.
 (* non-vacuity of the domains: a concrete 7K text (hold, SV and tempo point, metadata value with colons,
    background with a colon, a sample event, [Colours], blank lines) and a concrete 7K chart (fractional and
    negative times, a hold / hit tie after truncation, decimal attributes, a sample event) *)
